@@ -3,6 +3,8 @@ from __future__ import annotations  # Python 3.9 requires it for X | Y type hint
 from collections.abc import Generator
 from typing import cast
 
+import numpy as np
+import pandas as pd
 import pyarrow as pa
 
 
@@ -205,3 +207,17 @@ def transpose_list_struct_array(array: pa.ListArray) -> pa.StructArray:
         fields.append(list_array)
 
     return pa.StructArray.from_arrays(fields, names=array.type.value_type.names)
+
+
+def copy_if_numpy_backed(value):
+    """Copy of a numpy array, or of the values of a numpy-backed pandas object; anything else as it is.
+
+    `pa.array()` wraps numpy memory without copying it. Values that get stored in a nested column
+    are copied first, so that a later in-place change of the caller's array or series does not
+    show through the column.
+    """
+    if isinstance(value, np.ndarray):
+        return value.copy()
+    if isinstance(value, (pd.Series, pd.Index)) and isinstance(value.dtype, np.dtype):
+        return value.to_numpy(copy=True)
+    return value
